@@ -738,6 +738,7 @@ let rec run_roundtrip (args : sx list) : sx =
                                                 | Err x -> A (exn_name x))];
                           L [A "norm-is-reparse"; sx_bool (q2 = norm_query q)];
                           (* the hypotheses of the C10 theorems, evaluated on the compiled query *)
+                          L [A "tokens-ok"; sx_bool (tokens_ok e)];
                           L [A "in-domain"; sx_bool (c10_domain e re_ok_oracle q)];
                           L [A "floats-ok"; sx_bool (floats_ok q)];
                           L [A "floats-stable"; sx_bool (floats_stable q)]]))
